@@ -11,11 +11,22 @@
     c01.cuts.<k> <hex> <pos>    the c01.de outcome (pad = 0) of buf[:p] for every p in <pos>
                                 (`*` = every strict prefix), run-length encoded
                                 `<first p>x<count>=<outcome>` joined by `;`
+    c01.varint.ser <int>        VarIntSerializer.serialize(i)            → hex | err:valueerr | err:py:error
+    c01.varint.spec <nat>       Spec.compactSize                         → hex
+    c01.varint.rt <nat>         deserialize(serialize(n) ++ 5a)          → <value>:5a
+    c01.varint.de <hex>         VarIntSerializer.stream_deserialize on a stream   → <value>:<unread hex> | err:<family>
+    c01.hist.tx  <tx>    <obsA> <obsB>   two observers applied one after the other to ONE object: the model
+    c01.hist.blk <block> <obsA> <obsB>   answers are the stateless ones                     → <ansA>|<ansB>
+        observers: ser (serialize()), ser0 / ser1 (serialize({'include_witness': False/True})), stream / stream0
+        (stream_serialize into a BytesIO, default / include_witness=False), hash (GetHash), txid (GetTxid, tx only),
+        pyh (hash(obj) == hash(bytes of the default serialisation)), eq (== a freshly built twin), weight
+        (calc_weight / GetWeight)
 -/
 import Driver.Util
 import Driver.TxFmt
 import BtcVerif.Model.Wire
 import BtcVerif.Model.Ident
+import BtcVerif.Model.Merkle
 import BtcVerif.Spec.Wire
 
 namespace Driver.C01
@@ -82,6 +93,39 @@ def cutsOp {α} (k : Kind α) (hex pos : String) : String :=
       | none => badArgs)
   | none => badArgs
 
+def renderRes (r : Res String) : String :=
+  match r with
+  | .ok s => s
+  | .error e => "err:" ++ e.family
+
+/-- stateless answer of one observer on a transaction (`none` = unknown observer) -/
+def obsTx (t : Tx) (o : String) : Option String :=
+  match o with
+  | "ser" | "ser1" | "stream" => some (renderBytes (serTx t))
+  | "ser0" | "stream0" => some (renderBytes (serTx t false))
+  | "hash" => some (renderRes ((Model.Ident.getHash t).map toHex))
+  | "txid" => some (renderRes ((Model.Ident.getTxid t).map toHex))
+  | "pyh" | "eq" => some (renderRes ((serTx t).map fun _ => "1"))
+  | "weight" => some (renderRes ((Model.Merkle.calcWeight t).map toString))
+  | _ => none
+
+def obsBlk (b : Block) (o : String) : Option String :=
+  match o with
+  | "ser" | "ser1" | "stream" => some (renderBytes (serBlock b))
+  | "ser0" | "stream0" => some (renderBytes (serBlock b false))
+  | "hash" => some (renderRes ((Model.Ident.blockHash b).map toHex))
+  | "pyh" | "eq" => some (renderRes ((serBlock b).map fun _ => "1"))
+  | "weight" => some (renderRes ((Model.Merkle.getWeight b).map toString))
+  | _ => none
+
+def histOp {α} (obs : α → String → Option String) (x : Option α) (a b : String) : String :=
+  match x with
+  | none => badArgs
+  | some x =>
+    match obs x a, obs x b with
+    | some ra, some rb => ra ++ "|" ++ rb
+    | _, _ => badArgs
+
 def handle (op : String) (args : List String) : Option String :=
   match op, args with
   | "c01.ser.tx", [t] => some <| match parseTx? t with
@@ -102,6 +146,26 @@ def handle (op : String) (args : List String) : Option String :=
   | "c01.spec.blk", [b] => some <| match parseBlock? b with
       | some b => toHex (Spec.Wire.block b)
       | none => badArgs
+  | "c01.varint.ser", [i] => some <| match parseInt? i with
+      | some i => renderBytes (serVarIntInt i)
+      | none => badArgs
+  | "c01.varint.spec", [n] => some <| match parseNat? n with
+      | some n => toHex (Spec.Wire.compactSize n)
+      | none => badArgs
+  | "c01.varint.rt", [n] => some <| match parseNat? n with
+      | some n => (match serVarInt n with
+          | .ok bs => (match deVarInt (bs ++ [0x5a]) with
+              | .ok (v, rest) => s!"{v}:{toHex rest}"
+              | .error e => "err:" ++ e.family)
+          | .error e => "err:" ++ e.family)
+      | none => badArgs
+  | "c01.varint.de", [h] => some <| match parseHex? h with
+      | some b => (match deVarInt b with
+          | .ok (v, rest) => s!"{v}:{toHex rest}"
+          | .error e => "err:" ++ e.family)
+      | none => badArgs
+  | "c01.hist.tx", [t, a, b] => some (histOp obsTx (parseTx? t) a b)
+  | "c01.hist.blk", [blk, a, b] => some (histOp obsBlk (parseBlock? blk) a b)
   | "c01.de.tx", [h, p] => some (deOp kTx h p)
   | "c01.de.txm", [h, p] => some (deOp kTxM h p)
   | "c01.de.hdr", [h, p] => some (deOp kHdr h p)
